@@ -1,5 +1,6 @@
 pub mod c01;
 pub mod c03;
+pub mod c05;
 pub mod c06;
 pub mod c09;
 pub mod c15;
@@ -33,6 +34,7 @@ macro_rules! entry {
 const TABLE: &[Entry] = &[
     entry!("C01", "model_checking", 50, 1500, c01),
     entry!("C03", "model_checking", 50, 1500, c03),
+    entry!("C05", "model_checking", 55, 1500, c05),
     entry!("C06", "model_checking", 50, 1500, c06),
     entry!("C09", "model_checking", 50, 1500, c09),
     entry!("C15", "exploration", 50, 900, c15),
